@@ -202,6 +202,100 @@ def check_welford(F, R, name='WelfordOnline'):
     R.ob('W5-divisor', name, good and n_checked > 0, 'every (x − mean)/k correction uses k = number of samples after that operation (%d cases)' % n_checked if good else why, v.file)
 
 
+def _signed_terms(t, sign=1, out=None):
+    if out is None:
+        out = []
+    if t[0] == 'op' and t[1] == 'add':
+        _signed_terms(t[2][0], sign, out)
+        _signed_terms(t[2][1], sign, out)
+    elif t[0] == 'op' and t[1] == 'sub':
+        _signed_terms(t[2][0], sign, out)
+        _signed_terms(t[2][1], -sign, out)
+    else:
+        out.append((sign, t))
+    return out
+
+
+def check_welford_cross(F, R, name='WelfordOnline', rule='W5-cross'):
+    """The sum of squared deviations is maintained by Welford's recurrence: every change of the m2 cell is
+    +(x − mean_before)(x − mean_after) for the value x that enters and −(e − mean_before)(e − mean_after) for the value e that
+    leaves, where mean_after is exactly the one-step update mean_before ± (·−mean_before)/k of the same operation, the
+    operations are chained (the add starts from the mean the remove left) and the chain ends in the stored mean."""
+    v = view_by_name(F).get(name)
+    if v is None:
+        R.violation(rule, name, 'not found')
+        return
+    fl = flow(F, v)
+    cells = [c for c in float_cells(fl) if self_referential(fl, c)]
+    vs = {info['V'] for info in fl.queues.values() if info['V'] is not None}
+    per_cell = {}
+    for c in cells:
+        try:
+            per_cell[c] = [(tuple(conds), leaf) for conds, leaf in fl.cell_cases(c, deep=True) if fl.delivering(conds)]
+        except OverflowError:
+            per_cell[c] = None
+    def is_prod(t):
+        return (t[0] == 'op' and t[1] == 'mul' and all(f[0] == 'op' and f[1] == 'sub' for f in t[2]) and t[2][0][2][0] == t[2][1][2][0])
+    m2s = [c for c in cells if per_cell[c] and any(any(is_prod(t) for _, t in _signed_terms(leaf)) for _, leaf in per_cell[c])]
+    if len(m2s) != 1:
+        R.ob(rule, name, False, 'expected exactly one cell maintained by cross terms (x − a)(x − b), found %s' % m2s, v.file)
+        return
+    m2 = m2s[0]
+    means = [c for c in cells if c != m2]
+    zero = lit(0.0)
+    bad = []
+    n = 0
+    for conds, leaf in per_cell[m2]:
+        terms = _signed_terms(leaf)
+        base = [t for sg, t in terms if not is_prod(t)]
+        prods = [(sg, t) for sg, t in terms if is_prod(t)]
+        if any(not (t == ('in', m2) or t == zero) for t in base) or any(sg < 0 for sg, t in terms if not is_prod(t)):
+            bad.append('m2 takes a value that is not m2/0 plus cross terms: %s' % tstr(leaf)[:100])
+            continue
+        if not prods:
+            if leaf != ('in', m2) and leaf != zero:
+                bad.append('m2 changes without a cross term: %s' % tstr(leaf)[:80])
+            continue
+        chain = {}
+        for sg, t in prods:
+            n += 1
+            X = t[2][0][2][0]
+            a, b = t[2][0][2][1], t[2][1][2][1]
+            step = 'add' if sg > 0 else 'sub'
+            def one_step(A, B):
+                return (B[0] == 'op' and B[1] == step and B[2][0] == A and B[2][1][0] == 'op' and B[2][1][1] == 'div'
+                        and B[2][1][2][0] == op('sub', X, A))
+            if one_step(a, b):
+                A, B = a, b
+            elif one_step(b, a):
+                A, B = b, a
+            else:
+                bad.append('%s(%s − %s)(%s − %s): the two means are not the mean before and after the same %s step' % (
+                    '+' if sg > 0 else '−', tstr(X)[:30], tstr(a)[:40], tstr(X)[:30], tstr(b)[:40], 'add' if sg > 0 else 'remove'))
+                continue
+            if sg > 0 and X not in vs:
+                bad.append('a cross term is added for %s, which is not the value entering the window' % tstr(X)[:50])
+            if sg < 0 and (X in vs or not any(y[0] in ('front', 'pop_front', 'back', 'pop_back') for y in subterms(X))):
+                bad.append('a cross term is removed for %s, which is not the value leaving the window' % tstr(X)[:50])
+            chain[sg] = (A, B)
+        if bad:
+            continue
+        first = chain.get(-1, chain.get(1))
+        if 1 in chain and -1 in chain and chain[1][0] != chain[-1][1]:
+            bad.append('the add step does not start from the mean left by the remove step')
+        if first and not (first[0][0] == 'in' and first[0][1] in means or first[0] == zero):
+            bad.append('the first step does not start from the stored mean: %s' % tstr(first[0])[:60])
+        last = chain.get(1, chain.get(-1))
+        if last:
+            for mc in means:
+                for conds2, leaf2 in per_cell.get(mc) or []:
+                    if conds2 == conds and first[0] in (('in', mc), zero) and leaf2 != last[1]:
+                        bad.append('the mean used by the last cross term is not the mean stored by this update (%s vs %s)' % (tstr(last[1])[:50], tstr(leaf2)[:50]))
+    R.ob(rule, name + ':' + m2, not bad and n > 0,
+         'every change of %s is ±(x − mean_before)(x − mean_after) of a properly chained add/remove step (%d cross terms)' % (m2, n) if not bad and n > 0
+         else (bad[0] if bad else 'no cross term found'), v.file)
+
+
 def check_predicate_counter(F, R, name, rule='PC'):
     views = view_by_name(F)
     v = views.get(name)
@@ -336,6 +430,7 @@ def run_c02(F, R):
     check_accumulators(F, R, {'Sma': 1, 'Cumulative': 1})
     check_extrema(F, R, {'Min': 1, 'Max': 1, 'HLNormalizer': 2})
     check_welford(F, R, 'WelfordOnline')
+    check_welford_cross(F, R, 'WelfordOnline')
     check_predicate_counter(F, R, 'BinaryEntropy')
     no_raw_in_state(F, R, spec.WINDOW_VIEWS)
     from .e_typed_props import no_absolute_thresholds
@@ -396,6 +491,9 @@ def run_c03(F, R):
     R.assume('N >= 1; for PolarizedFractalEfficiency the supplied moving average is itself a finite-memory view')
     check_windows(F, R, [n for n in spec.FINITE_MEMORY if n not in ('Vst', 'Vsct')] + ['Vst', 'Vsct'], 'W1')
     census(F, R, spec.FINITE_MEMORY)
+    # the census accepts mean/m2 of the Welford views on the strength of these two rules
+    check_welford(F, R, 'WelfordOnline')
+    check_welford_cross(F, R, 'WelfordOnline')
     from .e_typed_props import no_absolute_thresholds
     no_absolute_thresholds(F, R, spec.FINITE_MEMORY, 'G0')
     R.floor('W1', 17)
@@ -412,9 +510,51 @@ def run_c05(F, R):
     from .e_typed_props import no_absolute_thresholds
     no_absolute_thresholds(F, R, spec.WINDOW_VIEWS_C05, 'G0')
     ratio_guards(F, R)
+    output_from_exit_aggregates(F, R, ['Rsi', 'MyRSI'])
+    R.floor('G-exit', 2)
     R.floor('M1', 4)
     R.floor('M2', 2)
     R.decline('100 - 100/(1+G/L) == 100 G/(G+L), the ±1 / negation corollaries and residue after a spike leaves (rounding) are value properties')
+
+
+def output_from_exit_aggregates(F, R, names, rule='G-exit'):
+    """The reported value is formed from the aggregates as this update leaves them: on every exit of update() that writes
+    the output cell, each aggregate the output depends on enters only through its exit value (not through a value from before
+    the eviction/insertion of this step)."""
+    from .terms import map_term
+    views = view_by_name(F)
+    for n in names:
+        v = views.get(n)
+        if v is None:
+            R.violation(rule, n, 'not found')
+            continue
+        fl = flow(F, v)
+        out_cells = [c for c in fl.m.touched if c.split('.')[-1] == 'out']
+        aggs = [c for c in float_cells(fl) if self_referential(fl, c) and c not in out_cells]
+        bad = []
+        used = 0
+        if not out_cells:
+            R.ob(rule, n, True, 'no output cell is written by update(): last() reads the aggregates as update() left them', v.file)
+            continue
+        for ex in fl.m.up_exits:
+            for oc in out_cells:
+                t = ex.fields.get(oc, ('in', oc))
+                if t == ('in', oc):
+                    continue
+                for a in aggs:
+                    A = ex.fields.get(a, ('in', a))
+                    if A == ('in', a):
+                        continue
+                    mark = ('exitval', a)
+                    t2 = map_term(t, lambda x, A=A, mark=mark: mark if x == A else x)
+                    if any(x == mark for x in subterms(t2)):
+                        used += 1
+                    stale = [x for x in subterms(t2) if x == ('in', a)]
+                    if stale:
+                        bad.append('%s is computed from a value of %s that is not the one this update leaves behind (exit value %s)' % (
+                            oc, a, tstr(A)[:70]))
+        R.ob(rule, n, not bad and used > 0, 'the output is formed from the exit values of %s (%d uses)' % (aggs, used) if not bad and used > 0
+             else (bad[0] if bad else 'the output does not use any aggregate exit value'), v.file)
 
 
 def ratio_guards(F, R):
